@@ -489,6 +489,42 @@ def gen_case(rng, name=""):
     return {"name": name, "fns": fns}
 
 
+def enum_cases(max_stmts=3):
+    """Systematic single-function layouts (thorough tier): every sequence of up to `max_stmts` defer statements, each at
+    top level / inside a taken if / inside a skipped if / inside a for of 0 or 2 iterations, callee with or without an
+    argument node, with a run-time fault before any statement, after the last one, or nowhere; called by a recovering root."""
+    import itertools
+    places = ["top", "ift", "iff", "for0", "for2"]
+    out = []
+    for n in range(1, max_stmts + 1):
+        for combo in itertools.product(places, [0, 1], repeat=n):
+            st = [(combo[2 * i], combo[2 * i + 1]) for i in range(n)]
+            for fault_at in [None] + list(range(n + 1)):
+                fns = [{"kind": "plain", "nparams": 0, "body": [["defer", 1, []], ["call", 2, []], ["mark", 1]]},
+                       {"kind": "plain", "nparams": 0, "body": [["recover"]]},
+                       {"kind": "plain", "nparams": 0, "body": []}]
+                body = []
+                for i, (place, na) in enumerate(st):
+                    if fault_at == i:
+                        body.append(["fault", "idx"])
+                    fns.append({"kind": "plain", "nparams": na, "body": []})
+                    c = len(fns) - 1
+                    if place.startswith("for"):
+                        d = ["defer", c, [["i"]] if na else []]
+                        body.append(["for", int(place[3:]), [d]])
+                    else:
+                        d = ["defer", c, [["lit", 7 + i]] if na else []]
+                        if place == "top":
+                            body.append(d)
+                        else:
+                            body.append(["if", 1 if place == "ift" else 0, [d], []])
+                if fault_at == n:
+                    body.append(["fault", "idx"])
+                fns[2]["body"] = body
+                out.append({"name": "enum-%s-%s" % ("".join("%s%d." % x for x in st), fault_at), "fns": fns})
+    return out
+
+
 def count_defers(case):
     return sum(len(defer_paths(case["fns"], f)) for f in range(len(case["fns"])))
 
